@@ -115,6 +115,16 @@ func c06setup() error {
 		unix.CloseOnExec(n)
 	}
 	L := &c06layout{files: map[int]string{}, srcDir: tmpDir("c06src"), exePath: probe("report")}
+	// descriptors 0 and 1 of this worker become two distinct files (the explorer talks over private descriptors), so that
+	// list values 0, 1, 2 name three different open files
+	for _, fd := range []int{0, 1} {
+		p := filepath.Join(L.srcDir, fmt.Sprintf("std%d", fd))
+		os.WriteFile(p, []byte(p), 0644)
+		if t, err := unix.Open(p, unix.O_RDWR|unix.O_CLOEXEC, 0); err == nil {
+			unix.Dup3(t, fd, unix.O_CLOEXEC)
+			unix.Close(t)
+		}
+	}
 	for fd := 3; fd <= 16; fd++ {
 		if !fdFree(fd) {
 			continue // owned by the Go runtime: never touched, never listed
@@ -171,7 +181,7 @@ func init() {
 			Assumptions: []string{"identity of an open file = (st_dev, st_ino) seen by fstat on both sides", "all descriptors of the launching process are close-on-exec (set by the harness), so any extra descriptor in the program was put there by the library"},
 			SplitDepth:  5,
 			Workers:     4,
-			Horizon:     60 * time.Second,
+			Horizon:     20 * time.Second,
 		}
 		spec.Init = func() error {
 			if os.Getenv("VERIF_WORKER") == "" && len(os.Args) < 4 {
@@ -183,8 +193,12 @@ func init() {
 		}
 		spec.Fini = func() { c09pool.drop(); cleanupTmp() }
 		spec.Body = func(x *mc.X) {
-			if x.Choose(2, "family") == 1 {
+			switch x.Choose(3, "family") {
+			case 1:
 				c06container(x)
+				return
+			case 2:
+				c06long(x)
 				return
 			}
 			L := c06L
@@ -226,6 +240,7 @@ func init() {
 			}
 			x.Note("family", "forkexec")
 			x.Note("list", fmtList(list))
+			x.OnHang("C06/launch-hangs", fmt.Sprintf("launch with list %s exec=%d gap=%d vfork=%v did not return within the horizon", fmtList(list), execSel, gap, vfork))
 			x.Note("gap", gap)
 			x.Note("exec", []string{"none", "low", "high"}[execSel])
 			x.Note("vfork", vfork)
@@ -452,4 +467,70 @@ func c06container(x *mc.X) {
 	shape := c06judge(x, &rep, exp, n, fmt.Sprintf("container list %s exec=%v syncafter=%v", fmtList(list), withExec, syncAfter), 1)
 	x.Distinct(fmt.Sprint("c", fmtList(list), withExec, syncAfter, shape))
 	x.Outcome(fmt.Sprintf("container:len=%d:%s", n, shapeClass(shape)))
+}
+
+// c06long: long lists whose entries all need a scratch duplicate (Files[i] < i), sized so that the scratch numbers walk
+// exactly onto the internal socketpair (which then is not relocated because it already lies above the list).
+func c06long(x *mc.X) {
+	shape := x.Pick("shape", "all-zero", "descending", "zero-then-descending")
+	delta := x.Choose(4, "socket-offset") // the child's socket end sits delta above the first scratch number
+	vfork := x.Choose(2, "nonvfork") == 0
+	withExec := x.Choose(2, "execfile") == 1
+	x.Note("family", "long-list")
+	x.OnHang("C06/launch-hangs", "launch of a long list did not return within the horizon")
+	if x.Dry() {
+		return
+	}
+	L := c06L
+	_, p1 := lowestFree2()
+	n := p1 - 1 - delta // scratch base = max(n, max fd)+1 = n+1; the socket end p1 = n+1+delta
+	if n < 4 {
+		x.Outcome("n/a")
+		return
+	}
+	list := make([]uintptr, n)
+	for i := range list {
+		switch shape {
+		case "all-zero":
+			list[i] = 0
+		case "descending":
+			list[i] = uintptr((n - 1 - i) % 3)
+		case "zero-then-descending":
+			list[i] = uintptr(i % 3)
+			if i >= 3 {
+				list[i] = uintptr(2 - i%3)
+			}
+		}
+	}
+	x.Note("list", fmt.Sprintf("%d entries, %s, socket expected at %d", n, shape, p1))
+	exp := make([]*ident, n)
+	for i, v := range list {
+		id, _ := fdIdent(int(v))
+		exp[i] = &id
+	}
+	out := filepath.Join(tmpDir("c06out"), "r.json")
+	defer os.RemoveAll(filepath.Dir(out))
+	r := &forkexec.Runner{Args: []string{L.exePath, "--outfile=" + out}, Env: []string{}, Files: append([]uintptr{}, list...)}
+	if withExec {
+		r.ExecFile = uintptr(L.execHi)
+	}
+	if !vfork {
+		r.SyncFunc = func(int) error { return nil }
+	}
+	ctx := fmt.Sprintf("long list (%d × %s, socket offset %d, vfork %v, execfile %v)", n, shape, delta, vfork, withExec)
+	pid, err := r.Start()
+	if err != nil {
+		x.Failf("C06/long/start-failed", "%s: %v", ctx, err)
+		return
+	}
+	var ws syscall.WaitStatus
+	syscall.Wait4(pid, &ws, 0, nil)
+	rep, err := readReport(out)
+	if err != nil {
+		x.Failf("C06/long/no-report", "%s: the program did not report (%v, wait status %#x)", ctx, err, uint32(ws))
+		return
+	}
+	shapeS := c06judge(x, rep, exp, n, ctx, 1)
+	x.Distinct(fmt.Sprint("long", shape, delta, vfork, withExec, shapeS))
+	x.Outcome("long:" + shapeClass(shapeS))
 }
